@@ -39,6 +39,9 @@ def generate(prop, rng, seed, index, tier):
     elif typ == 'textfile':
         src['delimiter'] = '\n'
         src['pre'] = ''
+        # from_end places the reader once, when the source is created (the file is empty then): start() calls,
+        # redundant or not, must not move it again
+        src['from_end'] = rng.random() < 0.4
         t = 0.0
         for k in range(nitems):
             t += rng.choice(TGRID)
